@@ -55,6 +55,11 @@ TREES = {
                    'inc1/cfg.asm': 'CFG = 10\n', 'inc2/cfg.asm': 'CFG = 20\n', 'inc2/lib.asm': 'include cfg.asm\nLIBV = CFG + 2\n'},
          'incs': ['inc2', 'inc1']},
 }
+# one file tree, two calls: without the directory a nested include needs (the call fails INSIDE an included file), and with it
+_T29 = {'proj/main.asm': 'include common.asm\nstart:\n    addi x5, x5, CHIPV\n', 'lib/common.asm': 'LIBK = 3\ninclude chip.asm\n',
+        'defs/chip.asm': 'CHIPV = LIBK + 4\n'}
+TREES[29] = {'tree': 'tree29', 'files': _T29, 'incs': ['lib']}
+TREES[30] = {'tree': 'tree29', 'files': _T29, 'incs': ['lib', 'defs']}
 TREE_ROOT = None
 
 
@@ -63,17 +68,18 @@ def materialise_trees(root):
     TREE_ROOT = root
     for pid, t in TREES.items():
         for rel, content in t['files'].items():
-            p = os.path.join(root, 'tree%d' % pid, rel)
+            p = os.path.join(root, t.get('tree', 'tree%d' % pid), rel)
             os.makedirs(os.path.dirname(p), exist_ok=True)
             with open(p, 'wb') as f:
                 f.write(content.encode('latin-1'))
         for d in t['incs']:
-            os.makedirs(os.path.join(root, 'tree%d' % pid, d), exist_ok=True)
+            os.makedirs(os.path.join(root, t.get('tree', 'tree%d' % pid), d), exist_ok=True)
 
 
 def tree_args(pid, root=None):
     root = root or TREE_ROOT
-    return os.path.join(root, 'tree%d' % pid, 'proj', 'main.asm'), [os.path.join(root, 'tree%d' % pid, d) for d in TREES[pid]['incs']]
+    base = os.path.join(root, TREES[pid].get('tree', 'tree%d' % pid))
+    return os.path.join(base, 'proj', 'main.asm'), [os.path.join(base, d) for d in TREES[pid]['incs']]
 
 
 for _pid in TREES:
@@ -206,7 +212,7 @@ def _cli_seed(args):
 def c16(run, scratch):
     cfg = os.path.join(scratch, 'sess.cfg')
     pool = set(POOL)
-    pool3 = {1, 6, 13, 14, 21, 22, 27} if run.tier == 'quick' else {1, 2, 3, 4, 6, 8, 10, 12, 13, 14, 17, 18, 21, 22, 24, 25, 26, 27, 28}
+    pool3 = {1, 6, 13, 22, 29, 30} if run.tier == 'quick' else {1, 2, 3, 4, 6, 8, 10, 12, 13, 14, 17, 18, 21, 22, 24, 25, 26, 27, 28, 29, 30}
     tlc.write_cfg(cfg, spec='Spec', constants={'Pool': pool, 'Pool3': pool3, 'MaxLen': 3 if run.tier == 'quick' else 4},
                   invariants=['Export'], properties=['TablesConstant'])
     materialise_trees(os.path.join(scratch, 'trees'))
@@ -274,7 +280,7 @@ def c16(run, scratch):
     run.coverage['distinct_call_inputs_baselined'] = len(base)
     run.coverage['cli_hash_seed_runs'] = len(jobs)
     run.coverage['exhaustive'] = True
-    run.coverage['rule'] = ('TLC enumerates every history of <= 3 (4) calls over 28 interfering programs (three of them file trees with the same file name in several searched directories, assembled with ONE shared include-directory list object that no call may change) (incl. pairs that share the text of every line but not its meaning) (same names as constant / label / register alias in different programs, '
+    run.coverage['rule'] = ('TLC enumerates every history of <= 3 (4) calls over 30 interfering programs (five of them file trees, one tree called without and with the directory a nested include needs; with the same file name in several searched directories, assembled with ONE shared include-directory list object that no call may change) (incl. pairs that share the text of every line but not its meaning) (same names as constant / label / register alias in different programs, '
                             'failures in parse / constants / immediates / encode / error directive, compressible layouts) x compress x dictionary mode (not passed / fresh / the '
                             'objects of the previous call); the third and later calls range over a sub-pool; every history is replayed in one interpreter (thousands back to back) '
                             'and each call compared with the same call alone in a fresh interpreter; module tables digested after every call; every program run through the CLI '
